@@ -427,9 +427,13 @@ func (b *Broker) RegisterPipeline(def Pipeline, opt ...Option) error {
 		registrationPolicy: opts.withPipelineRegistrationPolicy,
 	}
 
+	// The nodes of a pipeline that is being overwritten are no longer referenced by it.
+	replaced, _ := g.roots.Nodes(def.PipelineID)
+
 	// Store the pipeline and then update the reference count of the nodes: a
 	// pipeline holds one reference to each of its nodes, however often it lists it.
 	g.roots.Store(def.PipelineID, pipelineReg)
+	b.releaseNodes(replaced)
 	for id := range root.flatten() {
 		nodeUsage, ok := b.nodes[id]
 		// We can be optimistic about this as we would have already errored above.
@@ -439,6 +443,17 @@ func (b *Broker) RegisterPipeline(def Pipeline, opt ...Option) error {
 	}
 
 	return nil
+}
+
+// releaseNodes drops one pipeline's reference to each of the given nodes.
+// This function assumes that the caller holds a lock
+func (b *Broker) releaseNodes(ids []NodeID) {
+	for _, id := range ids {
+		nodeUsage, ok := b.nodes[id]
+		if ok && nodeUsage.referenceCount > 0 {
+			nodeUsage.referenceCount--
+		}
+	}
 }
 
 // RemovePipeline removes a pipeline from the broker.
